@@ -72,6 +72,9 @@ dev_impl! {
         let g = Self::to_dev(&c.g);
         // dagger: swaps the interfaces, leaves nodes and hyperedges untouched, involution
         let fd = f.dagger();
+        // types as generic code sees them (through the Arrow trait, not the inherent accessors)
+        out.push(Obs::Accept("type-through-Arrow-trait", Self::un_sf(&<OH<K> as Arrow>::source(&f)) == c.f.src_type() && Self::un_sf(&<OH<K> as Arrow>::target(&f)) == c.f.tgt_type(), true));
+        out.push(Obs::Accept("dagger-type-through-Arrow-trait", Self::un_sf(&<OH<K> as Arrow>::source(&fd)) == c.f.tgt_type() && Self::un_sf(&<OH<K> as Arrow>::target(&fd)) == c.f.src_type(), true));
         out.push(Obs::Exact("dagger-swaps-interfaces", Self::c04_plain("dagger", &fd)?, c.f.dagger()));
         out.push(Obs::Exact("dagger-involution", Self::c04_plain("dagger", &fd.dagger())?, c.f.clone()));
         // contravariance
@@ -130,6 +133,15 @@ fn lax_observe(c: &Case) -> Result<Vec<Obs>, String> {
     out.push(Obs::Exact("lax-dagger-swaps-interfaces", from_lax(ld.clone(), "lax dagger")?, c.f.dagger()));
     out.push(Obs::Exact("lax-dagger-involution", from_lax(ld.dagger(), "lax dagger")?, c.f.clone()));
     let mk = |k: &Cospan| lax::OpenHypergraph::<L, L>::spider(FiniteFunction::<VecKind> { table: VecArray(k.s.clone()), target: k.s_cod }, FiniteFunction::<VecKind> { table: VecArray(k.t.clone()), target: k.t_cod }, k.w.clone());
+    // lax identities and symmetries are spiders too
+    let ab: Vec<L> = c.a.iter().chain(c.b.iter()).copied().collect();
+    out.push(Obs::Iso("lax-identity-is-spider", from_lax(<lax::OpenHypergraph<L, L> as Arrow>::identity(ab.clone()), "lax identity")?, Plain::identity(&ab)));
+    out.push(Obs::Iso("lax-symmetry-is-spider", from_lax(<lax::OpenHypergraph<L, L> as SymmetricMonoidal>::twist(c.a.clone(), c.b.clone()), "lax twist")?, Plain::twist(&c.a, &c.b)));
+    // types through the category trait (generic code sees these, not the inherent accessors)
+    let lt = <lax::OpenHypergraph<L, L> as SymmetricMonoidal>::twist(c.a.clone(), c.b.clone());
+    let ba: Vec<L> = c.b.iter().chain(c.a.iter()).copied().collect();
+    out.push(Obs::Accept("lax-twist-type-through-Arrow-trait", Arrow::source(&lt) == ab && Arrow::target(&lt) == ba, true));
+    out.push(Obs::Accept("lax-dagger-type-through-Arrow-trait", Arrow::source(&ld) == c.f.tgt_type() && Arrow::target(&ld) == c.f.src_type(), true));
     let (sx, sy) = (mk(&c.x), mk(&c.y));
     out.push(Obs::Accept("lax-spider", sx.is_some(), c.x.well_typed()));
     out.push(Obs::Accept("lax-spider", sy.is_some(), c.y.well_typed()));
